@@ -150,6 +150,8 @@ type world struct {
 	gcHolders   int  // Run goroutines holding the "garbage-collection" lock
 	gcHook      func(run int)
 	meet        chan struct{}
+	abort       chan struct{} // closed when the scenario cannot go on without crashing the process
+	abortOnce   sync.Once
 }
 
 // classified failures (listed findings) are reported a few times only, so that
@@ -359,6 +361,15 @@ func (w *world) preStore() {
 // hook receives the verifhook points. The lock.* sites fire inside the real
 // lock source while this goroutine already holds w.mu (see lockSrc.TryLock).
 func (w *world) hook(site, key string) {
+	if w.hookLocked(site, key) {
+		// Run is about to go on although its updaters are still in flight (the
+		// failure is recorded): it would close the error channel under them and
+		// crash the process. Keep it here; the scenario is abandoned.
+		select {}
+	}
+}
+
+func (w *world) hookLocked(site, key string) (park bool) {
 	switch site {
 	case "lock.try.acquire":
 		w.lastTry = 1
@@ -422,6 +433,8 @@ func (w *world) hook(site, key string) {
 		// the run returns only after every started updater has finished
 		if rs.active > 0 || rs.launches > len(rs.workers) {
 			w.fail("", fmt.Sprintf("run-stopped-waiting-while-updaters-in-flight run=%d in-flight=%d launched=%d reached-trylock=%d", r, rs.active, rs.launches, len(rs.workers)))
+			w.abortOnce.Do(func() { close(w.abort) })
+			park = true
 		}
 	}
 	rs.lastHook = ev
@@ -434,6 +447,7 @@ func (w *world) hook(site, key string) {
 	} else if p := rs.spec.plan; p.kind == "hook" && p.site == ev && rs.hookCount[ev] == p.n {
 		w.cancelLocked(rs)
 	}
+	return park
 }
 
 // startRan: one m.Run(ctx) of the Start loop has returned. Caller holds w.mu.
@@ -1159,7 +1173,7 @@ func patRegexp(pat string) string {
 func runScenario(r *hx.Run, seed uint64, idx int, sc *scenario) bool {
 	w := &world{r: r, sc: sc, idx: idx, seed: seed, lastName: map[int64]int{}, runOfGo: map[int64]int{}, startOfGo: map[int64]*startState{},
 		worker: map[int64]*worker{}, byKey: map[[2]int]*worker{}, driving: map[int]*worker{}, configured: map[int]int{}, silent: sc.silent,
-		client: &http.Client{}, regBind: map[int]int{}, locks: updates.NewLocalLockSource(), meet: make(chan struct{})}
+		client: &http.Client{}, regBind: map[int]int{}, locks: updates.NewLocalLockSource(), meet: make(chan struct{}), abort: make(chan struct{})}
 	w.store = &store{w: w}
 	for _, h := range sc.hist {
 		k := driver.VulnerabilityKind
@@ -1367,6 +1381,8 @@ func runScenario(r *hx.Run, seed uint64, idx int, sc *scenario) bool {
 				}
 				select {
 				case <-rs.done:
+				case <-w.abort:
+					hung = true
 				case <-time.After(60 * time.Second):
 					w.mu.Lock()
 					w.fail("", fmt.Sprintf("Run-did-not-return-within-60s run=%d in-flight=%d", rs.id, rs.active))
@@ -1379,6 +1395,8 @@ func runScenario(r *hx.Run, seed uint64, idx int, sc *scenario) bool {
 		for _, st := range curStarts {
 			select {
 			case <-st.done:
+			case <-w.abort:
+				hung = true
 			case <-time.After(60 * time.Second):
 				w.mu.Lock()
 				w.fail("", fmt.Sprintf("Start-did-not-return-within-60s start=%d runs=%d cancelled=%v", st.id, st.k, st.cancelled))
